@@ -133,7 +133,16 @@ impl Prop for C10 {
     fn check(c: &Case, obs: &mut Obs) -> Verdict {
         let m = reprs::model_of(&c.g);
         let g = AdjacencyMap::build(&c.g);
-        let got: Vec<Vec<usize>> = Johnson75::new(&g).circuits();
+        let mut johnson = Johnson75::new(&g);
+        let got: Vec<Vec<usize>> = johnson.circuits();
+        // asking the same instance again must enumerate the same circuits
+        let again: BTreeSet<Vec<usize>> = johnson.circuits().into_iter().collect();
+        ensure!(
+            again.len() == got.len() && got.iter().all(|c| again.contains(c)),
+            "a second circuits() call on the same instance returned {} circuits, the first {}",
+            again.len(),
+            got.len()
+        );
         let want = m.circuits();
         let mut set: BTreeSet<Vec<usize>> = BTreeSet::new();
         for circuit in &got {
